@@ -9,6 +9,8 @@ TB = ("trusted base: the hand-written oracles in /verif/vh (TS/Zod parser, resol
 
 CHECKS = {
  # id: (category, technique, text, design_ref)
+ "C05": ("exploration", "runtime monitor: real CLI on generated projects; every emitted type parsed by the TS/Zod oracle and compared with the reference denotation M (re-validated against real serde_json each run)",
+         "held on everything observed: all chains of 18 constructor slots over 7 leaves to depth 2 (quick) / 3 (thorough) at the five sites in both modes, every primitive spelling, seeded deeper trees; mismatches equal to a recorded defect model are KNOWN-FINDINGs, anything else is a VIOLATION", "4 C05"),
  "C20": ("exploration", "runtime monitor: real ordering routines driven over enumerated graphs, each result judged by a closure/SCC oracle; crash = replayed and bisected",
          "held on every call observed: exhaustive over all digraphs (self-loops included) on <=3 nodes in quick and <=4 nodes in thorough, x all requested subsets x repeated fresh hash seeds, plus random graphs to 12 nodes; evidence reports distinct result orders seen per case", "4 C20"),
 }
